@@ -26,6 +26,8 @@ claim("C17",
       "an independent monitor of the property statement supplies the failing input. 'The episode's history and nothing else' on "
       "the coordinator side: defender-on sessions with several episodes on the real coordinator (followed by the coordinator "
       "model), with a monitor that the history handed to the defender is exactly the actions answered in the current episode; one "
+      "directed block (`long_window_cases`) puts a run or repeat that reaches its threshold, and one short of it, at the end, in the middle "
+      "and at the start of windows of 6 to 20 (30) actions in which the type's share stays below its ratio; one "
       "directed session is an episode of more than 100 actions (no step limit, trajectories saved, draw scripted to 0) in which "
       "an action of the first step is repeated as action 101 - the repeat counts over the whole episode. "
       "The integration clause in the coordinator model (Proofs/CoordDetect.v), for every reachable state, any number of agents and "
@@ -56,7 +58,8 @@ claim("C14",
       "braces, non-ASCII) through the real AgentServer read loop and dispatcher and compares the actions the game recorded "
       "with the ones sent (value and hash); bogus type names must be refused there too; on two connections, messages of exactly "
       "one read buffer (a legal action padded with blanks to ProtocolConfig.BUFFER_SIZE bytes is played, text of that length that is "
-      "not JSON is refused) must leave the next message of either connection untouched.",
+      "not JSON is refused) must leave the next message of either connection untouched; a table of actions stored (pickled) by "
+      "another interpreter must be found under the actions decoded from their JSON here (equal actions hash equally across interpreters).",
       "Trusted: Coq kernel + VM; translator harness/translate/codec.py; Python's json and ipaddress libraries enter as "
       "premises / as the IPv4-only validity function Model/Ipv4Text.v (IPv6 texts and ill-typed field values are outside "
       "the model); hand-written model tied by differential execution.",
@@ -80,7 +83,8 @@ claim("C15",
       "in-process coordinator sessions, single-agent and multi-agent with collective resets and faults (these sessions are "
       "also followed by the coordinator model) - that part is partial: not a theorem. Whenever the coordinator answers, the view it "
       "holds must also be made of sets and dictionaries of sets of the documented classes (a list where a set belongs encodes "
-      "the same but is not equal to what the response decodes to).",
+      "the same but is not equal to what the response decodes to). Networks that differ only in their host bits (or are different texts "
+      "of mask 0) are different elements: as views, as sets and as documents listing both (implementation and model inside Coq).",
       "Trusted: Coq kernel + VM; std++ 1.8; translator harness/translate/codec.py; json library as premise; IPv4-only "
       "address validity; the in-process loop driver and cyst stub for the session monitor.",
       "machine-checked proof in Rocq (Coq 8.16, std++) of a Gallina codec model + source-shape translator with per-run obligations + model/code correspondence + session monitor",
@@ -99,7 +103,9 @@ claim("C02",
       "hosts/services/data); the ops whose precondition fails are the ones counted for this property; an independent Python "
       "reference of the statement supplies failing inputs. The walks span several episodes (a reset every 25 steps), use ONE "
       "start-position table per role for all its agents and episodes (as the coordinator does; it is compared with what was "
-      "configured at every join and reset) and start positions that already hold data on the usual exfiltration target.", W_NOTE, W_TECH, "DESIGN.md section 7, C02")
+      "configured at every join and reset) and start positions that already hold data on the usual exfiltration target; generated topologies put public networks also into "
+      "special-purpose blocks (TEST-NET, benchmarking, link-local) that are public by the RFC 1918 rule, and a firewall table that allows "
+      "more than the scenario defines counts for this property.", W_NOTE, W_TECH, "DESIGN.md section 7, C02")
 claim("C03",
       "Rocq theorems giving the exact effect of each action in closed form when its precondition holds (C03_scan, "
       "C03_find_services + C03_services_all, C03_find_data, C03_exploit, C03_exfiltrate + C03_shared, C03_block_connectivity, "
@@ -206,7 +212,8 @@ claim("C05",
       "coordinator with the configured rewards divided by 16 (all answers must be the original ones with the rewards divided by 16). "
       "Directed sessions cover all three roles with three required players (a Defender that joins an episode in which an attacker has "
       "already succeeded - and has since asked for a reset - is still paid Fail) and a Defender that uses up a step limit of its own "
-      "while the attacker is playing (paid by the attackers' outcome alone).",
+      "while the attacker is playing (paid by the attackers' outcome alone), three players joining Attacker, Defender, Attacker, and a "
+      "success reward of 0 next to a non-zero fail reward.",
       C_NOTE, C_TECH, "DESIGN.md section 7, C05")
 claim("C06",
       "Across labels (Props/C04_reason.v, Proofs/CoordReason.v): C04_reason_stays (the reason an attacker ended with does not change "
@@ -282,7 +289,8 @@ claim("C19",
       "delivery orders and compares the end flag after every answer with the reference subset check of the configured goal; a "
       "required-players probe (absent / 1 / 2 / 3) checks that no episode - the first or a later one after a departure - starts "
       "before the configured number of players is in the game; the switch probe goes on for four episodes with a block in each "
-      "(every episode starts with the configured firewall, however many blocks came before); a wildcard-order probe hands every permutation of {all_local, "
+      "(every episode starts with the configured firewall, however many blocks came before); under dynamic addresses an episode may "
+      "end with Success only when the view knows the configured goal hosts under the current labelling; a wildcard-order probe hands every permutation of {all_local, "
       "the outside host, random, a local host} to the view builder (the reader keeps the items in a set, so their order is Python's) "
       "and requires all local addresses plus every listed address each time. "
       "The section readers (glue) are decided by correspondence: generated "
@@ -306,7 +314,8 @@ claim("C13",
       "VACANT while the world was re-labelled: its only agents leave, another role asks for the reset alone, an agent of the vacant role "
       "joins afterwards - twice in a row); the generator's random draws are "
       "scripted at the boundaries of the RFC 1918 blocks (a base at the top of a block must be rejected by the retry) and the "
-      "accepted re-labelling is checked for private-stays-private, distances, one-to-one, addresses inside their networks. Equivariance (Proofs/Equivariance.v): C13_equivariant_step / "
+      "accepted re-labelling is checked for private-stays-private, distances, one-to-one, addresses inside their networks; 60 (150) "
+      "CONSECUTIVE re-labellings per world, each starting from the labels the previous one produced, must all be produced and valid. Equivariance (Proofs/Equivariance.v): C13_equivariant_step / "
       "C13_equivariant_play - every one of the six actions, and by induction every action sequence, commutes with a re-labelling "
       "that is one-to-one on the addresses and networks in play and keeps the members of a scanned network (re-keyed world, "
       "translated view, translated actions give the re-keyed world and the translated view); C13_equivariant_ready states the "
